@@ -95,7 +95,7 @@ func (ns *nsim) step(op fx.Ev) (string, fx.Ev, error) {
 		if e == nil {
 			return "", nil, fmt.Errorf("no node %d", k)
 		}
-		return e.step(fx.Ev{"op": "submit", "t": op.Str("t")})
+		return e.estep(fx.Ev{"op": "submit", "t": op.Str("t")})
 	case "ndroptx", "ndropblk":
 		return "-", extra, nil
 	case "nmine":
